@@ -56,6 +56,17 @@ reg(
     "DESIGN.md §3 C11",
 )
 
+reg(
+    "C12",
+    "exploration",
+    "complete enumeration of (old word, sub-field, new value) triples for the packed words + Hypothesis note/pattern round trips against struct.pack",
+    "thorough enumerates all 65536 x 256 x 4 note sub-field setter triples and all 4.4 M visualization triples (exhaustive); quick takes all "
+    "old words x 5 new values. Notes and pattern byte images are generated and compared with an independent struct.pack('<BBHHH') "
+    "image, the PDTA chunk of the written file, and the reloaded pattern. SMII/SFGS are enumerated completely through save/load.",
+    "Cell layout and visualization bit layout taken from the format documentation.",
+    "DESIGN.md §3 C12",
+)
+
 NOT_APPLICABLE = {}
 
 ALL = ["C%02d" % i for i in range(1, 21)]
